@@ -27,6 +27,7 @@ def gen_caps(rng, p_fault=0.5):
     if rng.random() < 0.25: return {'default': 4, 'vec': None}
     n = rng.randint(3, 17)
     vec = [rng.choice([4, 4, 4, 8, 16, 32, 64]) for _ in range(n)]
+    if rng.random() < 0.02: vec[rng.randrange(n)] = 1024
     return {'default': 16, 'vec': vec, 'plus3': rng.random() < 0.5,     # False: the documented length len(circuit.lines)
             'dtype': rng.choice(['list', 'list', 'int64', 'int32', 'uint32', 'uint16', 'uint8', 'int8'])}
 
@@ -62,6 +63,8 @@ def gen_batches(rng, n_max=3, p_custom=0.4, p_k=0.15, sims=4, p_time=0.3, p_repr
         b = {'stim': gen_stim(rng), 'seed': rng.randint(0, 5), 'custom': gen_custom(rng, p_custom)}
         if rng.random() < p_k and sims > 1: b['k'] = rng.randint(1, sims - 1)
         if rng.random() < p_time: b['time'] = rng.choice([0, 1, 2.5, 5, 7.75, 10, 12.5, 20, 50, 1000])
+        if rng.random() < 0.1: b['s_to_c_twice'] = True
+        if rng.random() < 0.1: b['capture_first'] = rng.choice([0, 3, 7.5, 1000])
         if rng.random() < p_reprop: b['reprop'] = True      # a second c_prop() on the same assignment before results are read
         bs.append(b)
     return bs
@@ -82,7 +85,7 @@ def gen_actrl(rng, p=0.35):
     if rng.random() < 0.3:      # accumulator indices need not be contiguous
         for r_ in rows:
             if r_[0] >= 0: r_[0] = r_[0] * 2 + 1
-    return {'rows': rows, 'plus3': rng.random() < 0.5}   # False: the documented shape (len(lines), 3)
+    return {'rows': rows, 'plus3': rng.random() < 0.5, 'dtype': rng.choice(['int32', 'int32', 'int64', 'list'])}   # False: the documented shape (len(lines), 3)
 
 
 ORDER_KINDS = ['random', 'random', 'random', 'reversed', 'lane_major', 'op_major', 'last_op_first', 'odd_even', 'canonical']
